@@ -559,6 +559,10 @@ def run(prog, rep, tier):
              'dtype D carry dtype=D')
     if check_block_ctor_dtype(prog, rep) < 2:
         raise AnalysisError('DTYPE-block-ctor: identity blocks of _svd_worker not found')
+    rep.rule('QDATA-contiguous / INDEX-rank', 'column selections re-bound to _qdata are made '
+             'C-contiguous; add_leg indexes the extended tensor with rank + 1 entries')
+    if check_qdata_contiguous(prog, rep) < 4:
+        raise AnalysisError('QDATA-contiguous: fewer than 4 wrapped column selections / add_leg')
     rep.rule('COUPLED-shared-list', 'the list _data, shared with shallow copies, never changes its '
              'length in place (only by re-binding, like _qdata)')
     if check_shared_data_list(prog, rep) < 20:
@@ -725,3 +729,53 @@ def check_block_ctor_dtype(prog, rep):
                               % (unparse(e)[:60], got or 'float64 (numpy default)', want, want),
                               e.lineno)
     return n
+
+
+# ------------------------------------------------------------------ QDATA-contiguous / INDEX-rank
+def check_qdata_contiguous(prog, rep):
+    """QDATA-contiguous: `_qdata` is required C-contiguous (test_sanity; the compiled kernels read it
+    as `mode='c'`). Selecting or permuting COLUMNS with an index list / array (`q[:, idx]`) yields
+    a Fortran-ordered array for more than one column, so every such expression that is re-bound to
+    `<x>._qdata` is wrapped in np.array / np.asarray / np.ascontiguousarray(.., order='C').
+    INDEX-rank (add_leg): the index tuple that addresses the tensor extended by one leg has
+    `rank + 1` entries, so the new leg can be the last axis."""
+    m = prog.module(NPC)
+    n = 0
+    for q, f in m.functions.items():
+        for st in stmts_of(f):
+            if not (isinstance(st, ast.Assign) and any(
+                    isinstance(t, ast.Attribute) and t.attr == '_qdata' for t in st.targets)):
+                continue
+            v = st.value
+            if not (isinstance(v, ast.Subscript) and isinstance(v.slice, ast.Tuple) and
+                    len(v.slice.elts) == 2 and isinstance(v.slice.elts[0], ast.Slice) and
+                    v.slice.elts[0].lower is None and v.slice.elts[0].upper is None and
+                    not isinstance(v.slice.elts[1], (ast.Slice, ast.Constant)) and
+                    '_qdata' in unparse(v.value)):
+                continue
+            n += 1
+            rep.violation('QDATA-contiguous', m, q, 'column-selection:' + unparse(v)[:30],
+                          '`%s` re-binds _qdata to a column selection with an index array, which '
+                          'is Fortran-contiguous for rank >= 3: the tensor fails test_sanity '
+                          '("qdata is not C-contiguous")' % key_text(st)[:60], st.lineno)
+    wrapped = sum(1 for q, f in m.functions.items() for st in stmts_of(f)
+                  if isinstance(st, ast.Assign) and any(
+                      isinstance(t, ast.Attribute) and t.attr == '_qdata' for t in st.targets) and
+                  "order='C'" in unparse(st.value))
+    rep.instance('QDATA-contiguous', {'wrapped_column_selections': wrapped, 'unwrapped': n})
+    f = m.func('Array.add_leg')
+    k = 0
+    for st in stmts_of(f):
+        if isinstance(st, ast.Assign) and isinstance(st.value, ast.BinOp) and isinstance(
+                st.value.op, ast.Mult) and isinstance(st.value.left, ast.List) and \
+                'slice' in unparse(st.value.left):
+            k += 1
+            ok = unparse(st.value.right) not in ('self.rank', 'rank')
+            rep.instance('INDEX-rank', {'function': 'Array.add_leg', 'length': unparse(st.value.right),
+                                        'ok': ok})
+            if not ok:
+                rep.violation('INDEX-rank', m, 'Array.add_leg', 'index-length:' + unparse(
+                    st.value.right), '`%s` builds the index for the array with one MORE leg from '
+                    'the rank of self: the position `axis == rank` (new leg last) is out of range'
+                    % key_text(st)[:60], st.lineno)
+    return wrapped + k
